@@ -18,6 +18,7 @@ mod c12;
 mod c13;
 mod c14;
 mod c15;
+mod c18;
 mod c19;
 mod core;
 mod ev;
@@ -111,6 +112,7 @@ fn main() {
             let cli = opt(&args, "--cli");
             let out = match prop {
                 "c02" => c02::record(seed, n, cli.as_deref()),
+                "c18" => c18::record(cli.as_deref().expect("--cli"), args.iter().any(|a| a == "--thorough")),
                 "c03" => c03::record(seed, n),
                 "c04" => c04::record(seed, n),
                 "c07" => c07::record(seed, n, cli.as_deref()),
